@@ -2541,7 +2541,7 @@ class WCS(GWCSAPIMixin):
 
         for iax in input_axes:
             iiax = int(np.searchsorted(used_hdr_axes, iax))
-            hdr.insert(iiax + offset + 1, (f'NAXIS{iax + 1:d}', int(max(bounding_box[iiax])) + 1))
+            hdr.insert(iiax + offset + 1, (f'NAXIS{iax + 1:d}', int(max(bounding_box[iax])) + 1))
 
         # 1D grid coordinates:
         gcrds = []
